@@ -23,6 +23,8 @@ CONSTANTS
     DevVals = {"flip", "otherOrigin", "none"}
     PresentBudget = 0
     BurstN = 64
+    PressMax = 0
+    TouchOn = {}
     Mode = "tree"
     Depth = 40
 CHECK_DEADLOCK FALSE
